@@ -41,6 +41,24 @@ class NdObj(object):
         return id(self)
 
 
+class NdBuf(object):
+    """numpy.empty(shape, dtype): an uninitialised buffer; `value` is what was read into it"""
+    def __init__(self, shape, dtype):
+        self.shape, self.dtype, self.value = shape, dtype, ('uninitialised',)
+
+    def __eq__(self, other):
+        return self.value == (other.value if isinstance(other, NdBuf) else other)
+
+    def __ne__(self, other):
+        return not self.__eq__(other)
+
+    def __hash__(self):
+        return id(self)
+
+    def __repr__(self):
+        return 'buffer(%r)' % (self.value,)
+
+
 class NpzFile(dict):
     pass
 
@@ -79,7 +97,27 @@ def _attr_hook(interp, v, attr, node, env):
             return ('__method__', v, attr)
         if attr in ('close', 'flush'):
             return lambda i, a, k, n, e: None
+        if v.kind == 'dataset' and attr == 'shape':
+            return ('shape-of', id(v))
+        if v.kind == 'dataset' and attr == 'dtype':
+            return ('dtype-of', id(v))
+        if v.kind == 'dataset' and attr == 'read_direct':
+            def rd(i, args, kwargs, n, e):
+                buf = args[0]
+                if not isinstance(buf, NdBuf):
+                    raise A.Unsupported('h5 model: read_direct into %r' % (buf,))
+                # the values arrive converted to the type of the buffer: they are the stored ones only when the buffer was made with the dataset's own shape and type
+                faithful = buf.shape == ('shape-of', id(v)) and buf.dtype == ('dtype-of', id(v))
+                buf.value = v.data if faithful else ('converted to %s' % (buf.dtype if not isinstance(buf.dtype, tuple) else 'another dataset type',), v.data)
+                return None
+            return rd
         raise A.Unsupported('h5 model: attribute %s' % attr)
+    if isinstance(v, NdBuf):
+        if attr == 'shape':
+            return v.shape
+        if attr == 'dtype':
+            return v.dtype
+        raise A.Unsupported('ndarray buffer model: attribute %s' % attr)
     if isinstance(v, NdObj):
         if attr in ('item', 'tolist'):
             return lambda i, a, k, n, e: v.obj
@@ -200,6 +238,8 @@ def install():
     A.EXTERNAL_CALLS['numpy.load'] = _npload
     A.EXTERNAL_CALLS['numpy.array'] = _nparray
     A.EXTERNAL_CALLS['numpy.asarray'] = _npasarray
+    A.EXTERNAL_CALLS['numpy.empty'] = lambda i, a, k, n, e: NdBuf(a[0] if a else k.get('shape'), k.get('dtype', a[1] if len(a) > 1 else 'float64'))
+    A.EXTERNAL_CALLS['numpy.zeros'] = A.EXTERNAL_CALLS['numpy.empty']
     A.EXTERNAL_CALLS['numpy.size'] = _size
     A.EXTERNAL_CALLS['pysph.base.particle_array.ParticleArray'] = new_pa
     A.EXTERNAL_CALLS['pysph.has_h5py'] = lambda i, a, k, n, e: True
